@@ -51,7 +51,7 @@ func genC05Target(t *rapid.T, ctx *Ctx, sc *Scenario, fam int) (*c05Target, erro
 					return nil, err
 				}
 				lc := &SegCase{Seg: seg, Exp: Expect(b, sc.Norm.F), Docs: b, Mode: mode, Desc: fmt.Sprintf("built(mode=%d){%s}", mode, b)}
-				if h := rapid.IntRange(holdBuilt, holdFile).Draw(t, label+":hold"); h != holdBuilt {
+				if h := rapid.IntRange(holdBuilt, holdMmap).Draw(t, label+":hold"); h != holdBuilt {
 					if err := lc.reload(ctx, h); err != nil {
 						return nil, err
 					}
@@ -69,7 +69,7 @@ func genC05Target(t *rapid.T, ctx *Ctx, sc *Scenario, fam int) (*c05Target, erro
 						mode = 1025
 					}
 					ins := []*SegCase{c, c2}
-					c, _, err = MergeCases(ctx, ins, drops, mode, rapid.IntRange(holdMem, holdFile).Draw(t, "mhold"))
+					c, _, err = MergeCases(ctx, ins, drops, mode, rapid.IntRange(holdMem, holdMmap).Draw(t, "mhold"))
 					if err == nil {
 						mergeLabels(c, ins, drops)
 					}
@@ -247,6 +247,7 @@ func c05Prop(st *CaseStats, fam int) func(t *rapid.T) {
 		labels := c.LabelList()
 		is1Hit := false
 		replaced := false
+		var replacedBM, replacedCopy *roaring.Bitmap
 		if opt, ok := it.(segment.OptimizablePostingsIterator); ok {
 			if _, one := opt.DocNum1Hit(); one {
 				is1Hit = true
@@ -269,6 +270,7 @@ func c05Prop(st *CaseStats, fam int) func(t *rapid.T) {
 				}
 				live = nl
 				opt.ReplaceActual(sub)
+				replacedBM, replacedCopy = sub, sub.Clone()
 				replaced = true
 				labels = append(labels, "replace-actual")
 				desc += fmt.Sprintf(" ReplaceActual(%s)", bmString(sub))
@@ -420,6 +422,34 @@ func c05Prop(st *CaseStats, fam int) func(t *rapid.T) {
 				}
 			}
 			last = int64(g.Doc)
+		}
+		if replacedBM != nil && len(tg.list) > 0 {
+			// the bitmap handed to ReplaceActual stays the caller's (Bluge shares one intersection bitmap between
+			// several iterators): reusing the iterator for another list, with an exclusion, must not write to it
+			err = safely("reuse after ReplaceActual", func() error {
+				d, err := c.Seg.Dictionary(tg.field)
+				if err != nil {
+					return err
+				}
+				ex := roaring.BitmapOf(uint32(tg.list[0].Doc))
+				pl2, err := d.PostingsList([]byte(tg.term), ex, nil)
+				if err != nil {
+					return err
+				}
+				it2, err := pl2.Iterator(true, true, true, it)
+				if err != nil {
+					return err
+				}
+				_, err = it2.Next()
+				return err
+			})
+			if err != nil {
+				t.Fatalf("%s\n  history%s: reusing the iterator after ReplaceActual: %v", desc, hist, err)
+			}
+			if !replacedBM.Equals(replacedCopy) {
+				t.Fatalf("%s\n  history%s:\n  the bitmap handed to ReplaceActual changed from %s to %s when its iterator was reused for another list", desc, hist, bmString(replacedCopy), bmString(replacedBM))
+			}
+			labels = append(labels, "iterator-reused-after-ReplaceActual")
 		}
 		// the iterator of an absent term is empty whatever happened before: Count 0, nil, and nil again
 		err = safely("absent term", func() error {
